@@ -7,7 +7,7 @@ from mirsym.interp import Interp, St
 from mirsym import models_std, models_http
 from mirsym.models_http import header_value, header_map
 from mirsym.values import Agg, Enum, Ptr, Seq, BStr, UNIT, Panic, Unwind, Coro, bv, bstr, bstr_eq, is_abnormal
-from mirsym.harness import Decider, finish_engine, replay, find_fn
+from mirsym.harness import Decider, finish_engine, replay, find_fn, find_fns
 from checks import bodyio
 from vlib.common import Inconclusive
 
@@ -166,6 +166,14 @@ def run_generated_discipline(rep):
     rep.replayed += len(GEN_STATUS_OPS)
 
 
+def impl_text(prog, fname):
+    for info in prog.impls:
+        for ms in info.methods.values():
+            if fname in ms:
+                return info.text
+    return ''
+
+
 def run(rep, tier):
     with rep.part('generated client decoder selection'):
         run_generated_discipline(rep)
@@ -230,56 +238,70 @@ def run(rep, tier):
             if m is not None:
                 report(rep, 'read_body', flavour, h, m, (has_limit, limit), 'result differs from reading the stream item by item')
     # ---- 2. the decode_* entry points
-    for entry, cls in (('decode_serializable_response', 'value'), ('decode_default_serializable_response', 'default'), ('decode_empty_response', 'unit')):
+    for entry, cls in (('decode_serializable_response', 'value'), ('decode_default_serializable_response', 'default'), ('decode_empty_response', 'unit'),
+                       ('ConjureResponseDeserializer', 'value')):
         for flavour in ('blocking', 'async'):
-            it = mk()
-            dec = Decider(rep, it)
-            st = St()
-            h = bodyio.History(it, st, NCH, L)
-            status = z3.BitVec('status', 16)
-            st.pc.append(z3.Or(*[status == v for v in STATUS.values()]))
-            ct = z3.BitVec('ct_sel', 8)
-            st.pc.append(z3.ULT(ct, len(CT_CHOICES)))
-            kind, which, total, body = h.oracle(z3.BoolVal(False), bv(0))
-            resp = response_value(st, status, ct, h.iterator())
-            if flavour == 'blocking':
-                fn = find_fn(prog, entry, inpath='conjure_http::private::client::' + entry)
-                gen = it.run(fn, [resp], st, tenv)
-            else:
-                cl = [k for k in prog.fns if k.endswith(f'private::client::async_{entry}::{{closure#0}}')][0]
-                gen = bodyio.poll_once(it, st, cl, Coro('async_' + entry, bv(0, 32), (resp,), ()), tenv)
-            np_ = 0
-            seen_ok = 0
-            for s2, rv in gen:
-                np_ += 1
-                rep.states += 1
-                tag = f'{entry}:{flavour}:path{np_}'
-                if isinstance(rv, Unwind):
-                    rep.inconc(f'C18 {tag}: unwind {rv.where}')
-                    continue
-                if isinstance(rv, Panic):
-                    m = dec.decide(tag + ':panic', s2, z3.BoolVal(True))
+            with rep.part(f'{entry} {flavour}'):
+                it = mk()
+                dec = Decider(rep, it)
+                st = St()
+                h = bodyio.History(it, st, NCH, L)
+                status = z3.BitVec('status', 16)
+                st.pc.append(z3.Or(*[status == v for v in STATUS.values()]))
+                ct = z3.BitVec('ct_sel', 8)
+                st.pc.append(z3.ULT(ct, len(CT_CHOICES)))
+                kind, which, total, body = h.oracle(z3.BoolVal(False), bv(0))
+                resp = response_value(st, status, ct, h.iterator())
+                if entry == 'ConjureResponseDeserializer':
+                    # the macro clients' deserializer (conjure_http::client): same contract as decode_serializable_response
+                    impls = [k for k in find_fns(prog, 'deserialize', inpath='conjure_http::client::<impl at') if 'ConjureResponseDeserializer' in impl_text(prog, k)]
+                    blk = [k for k in impls if '{closure' not in k and 'async fn body' not in prog.fns[k].ret]
+                    asy = [k + '::{closure#0}' for k in impls if 'async fn body' in prog.fns[k].ret and (k + '::{closure#0}') in prog.fns]
+                    if len(blk) != 1 or len(asy) != 1:
+                        raise Inconclusive(f'C18 harness: ConjureResponseDeserializer impls not found uniquely: {blk} {asy}')
+                    tenv_m = {'R': ('path', 'ChunkIter', ()), 'T': ('path', 'DocT', ())}
+                    if flavour == 'blocking':
+                        gen = it.run(blk[0], [resp], st, tenv_m)
+                    else:
+                        gen = bodyio.poll_once(it, st, asy[0], Coro('async-macro-deserialize', bv(0, 32), (resp,), ()), tenv_m)
+                elif flavour == 'blocking':
+                    fn = find_fn(prog, entry, inpath='conjure_http::private::client::' + entry)
+                    gen = it.run(fn, [resp], st, tenv)
+                else:
+                    cl = [k for k in prog.fns if k.endswith(f'private::client::async_{entry}::{{closure#0}}')][0]
+                    gen = bodyio.poll_once(it, st, cl, Coro('async_' + entry, bv(0, 32), (resp,), ()), tenv)
+                np_ = 0
+                seen_ok = 0
+                for s2, rv in gen:
+                    np_ += 1
+                    rep.states += 1
+                    tag = f'{entry}:{flavour}:path{np_}'
+                    if isinstance(rv, Unwind):
+                        rep.inconc(f'C18 {tag}: unwind {rv.where}')
+                        continue
+                    if isinstance(rv, Panic):
+                        m = dec.decide(tag + ':panic', s2, z3.BoolVal(True))
+                        if m is not None:
+                            report(rep, entry, flavour, h, m, None, f'panic: {rv.msg}', status, ct, doc)
+                        continue
+                    is_ok = it.variant_of(rv, 'Ok')
+                    okp = it.payload(rv, 'Ok')
+                    # Ok  =>  (204 and the class admits it)  or  (Content-Type == application/json, no stream error, body == concatenation, one valid document)
+                    no_content_ok = z3.And(status == 204, z3.BoolVal(cls in ('default', 'unit')))
+                    seen = s2.aux.get('doc_body')
+                    body_ok = bstr_eq(seen, body) if seen is not None else z3.BoolVal(False)
+                    full = z3.And(ct == 1, kind == 0, body_ok, doc.doc_valid, doc.rest_is_ws)
+                    bad = z3.And(is_ok, z3.Not(z3.Or(no_content_ok, full)))
+                    # and a well-formed response must not be refused
+                    must = z3.Or(no_content_ok, z3.And(status != 204 if cls != 'value' else z3.BoolVal(True), ct == 1, kind == 0, doc.doc_valid, doc.rest_is_ws))
+                    bad = z3.Or(bad, z3.And(z3.Not(is_ok), must))
+                    m = dec.decide(tag + ':Ok<=>complete-correctly-typed-response', s2, bad, chunks=NCH)
                     if m is not None:
-                        report(rep, entry, flavour, h, m, None, f'panic: {rv.msg}', status, ct, doc)
-                    continue
-                is_ok = it.variant_of(rv, 'Ok')
-                okp = it.payload(rv, 'Ok')
-                # Ok  =>  (204 and the class admits it)  or  (Content-Type == application/json, no stream error, body == concatenation, one valid document)
-                no_content_ok = z3.And(status == 204, z3.BoolVal(cls in ('default', 'unit')))
-                seen = s2.aux.get('doc_body')
-                body_ok = bstr_eq(seen, body) if seen is not None else z3.BoolVal(False)
-                full = z3.And(ct == 1, kind == 0, body_ok, doc.doc_valid, doc.rest_is_ws)
-                bad = z3.And(is_ok, z3.Not(z3.Or(no_content_ok, full)))
-                # and a well-formed response must not be refused
-                must = z3.Or(no_content_ok, z3.And(status != 204 if cls != 'value' else z3.BoolVal(True), ct == 1, kind == 0, doc.doc_valid, doc.rest_is_ws))
-                bad = z3.Or(bad, z3.And(z3.Not(is_ok), must))
-                m = dec.decide(tag + ':Ok<=>complete-correctly-typed-response', s2, bad, chunks=NCH)
-                if m is not None:
-                    report(rep, entry, flavour, h, m, None, 'a value is returned from (or refused for) a response that is not (is) complete and correctly typed', status, ct, doc)
-                seen_ok += int(it.feasible(s2, is_ok))
-            if not seen_ok:
-                rep.inconc(f'vacuity: {entry} {flavour} never returns Ok')
-            finish_engine(rep, it)
+                        report(rep, entry, flavour, h, m, None, 'a value is returned from (or refused for) a response that is not (is) complete and correctly typed', status, ct, doc)
+                    seen_ok += int(it.feasible(s2, is_ok))
+                if not seen_ok:
+                    rep.inconc(f'vacuity: {entry} {flavour} never returns Ok')
+                finish_engine(rep, it)
     # binary responses: Content-Type gate only; the body object is passed through untouched
     for entry in ('decode_binary_response', 'decode_optional_binary_response'):
         it = mk()
@@ -306,6 +328,17 @@ def run(rep, tier):
                 c = CT_CHOICES[m.eval(ct, True).as_long()]
                 rep.structural(f'C18:{entry}', f'{entry}: status {m.eval(status, True)} Content-Type {c!r}: accepted={z3.is_true(m.eval(is_ok, True))}', {'status': str(m.eval(status, True)), 'content_type': str(c)}, battery_bin)
         finish_engine(rep, it)
+    # the macro client with a self-describing (`any`) result: nothing but a complete JSON response becomes a value
+    mops = [({'op': 'client_macro_status', 'status': 204}, None), ({'op': 'client_macro_status', 'status': 200, 'content_type': 'application/json', 'body': b'{"a":[1]}'.hex()}, '{"a":[1]}'),
+            ({'op': 'client_macro_status', 'status': 200, 'content_type': 'text/plain', 'body': b'5'.hex()}, None), ({'op': 'client_macro_status', 'status': 200}, None),
+            ({'op': 'client_macro_status', 'status': 204, 'content_type': 'application/json'}, None)]
+    for (o, w), r in zip(mops, replay([o for o, _ in mops])):
+        for fl in ('blocking', 'async'):
+            got = r.get(fl, {})
+            good = (not got.get('ok')) if w is None else (got.get('ok') and got.get('returned') == w)
+            if not good:
+                rep.violation(f'C18:native:macro:{fl}', f'macro client ({fl}) with an `any` result on {o}: {got}, expected {"an error" if w is None else w}', {'op': o, 'native': r})
+    rep.replayed += len(mops)
     # reachability twins replayed natively
     ops = [{'op': 'client_decode', 'kind': 'value', 'status': 200, 'content_type': 'application/json', 'chunks': ['31', '', '32']},
            {'op': 'client_decode', 'kind': 'value', 'status': 200, 'content_type': 'application/json', 'chunks': ['31', '32', None]},
